@@ -379,16 +379,35 @@ func runHandlers(c *mc.Ctx, r *mc.Result) {
 	r.Bounds["handlers"] = fmt.Sprintf("router-wide resolver {none, set} x all ordered pairs and triples of %d request kinds on one router (deterministic context pool); Context.ClientIP read in every handler", len(kinds))
 	for _, global := range []bool{false, true} {
 		var seen string
-		read := func(c fox.Context) {
+		readOne := func(c fox.Context) (out string) {
+			defer func() {
+				if p := recover(); p != nil {
+					out = fmt.Sprintf("panic:%v", p)
+				}
+			}()
 			ip, err := c.ClientIP()
 			switch {
 			case errors.Is(err, fox.ErrNoClientIPResolver):
-				seen = "none"
+				return "none"
 			case err != nil:
-				seen = "err:" + err.Error()
-			default:
-				seen = ip.String()
+				return "err:" + err.Error()
 			}
+			return ip.String()
+		}
+		read := func(c fox.Context) {
+			seen = readOne(c)
+			// a Clone and a CloneWith of the context answer the same (and still know their router)
+			cl := c.Clone()
+			if got := readOne(cl); got != seen {
+				seen = fmt.Sprintf("%s but its Clone() answers %s", seen, got)
+			} else if cl.Fox() != c.Fox() {
+				seen += " (Clone().Fox() differs)"
+			}
+			cw := c.CloneWith(c.Writer(), c.Request())
+			if got := readOne(cw); !strings.HasPrefix(seen, got) {
+				seen = fmt.Sprintf("%s but its CloneWith() answers %s", seen, got)
+			}
+			cw.Close()
 		}
 		opts := []fox.GlobalOption{fox.WithNoRouteHandler(read), fox.WithNoMethodHandler(read), fox.WithOptionsHandler(read),
 			fox.WithMiddlewareFor(fox.RedirectHandler, func(next fox.HandlerFunc) fox.HandlerFunc {
